@@ -114,7 +114,7 @@ class C09(Prop):
     def cases(self, rng: random.Random, tier: str) -> Iterable[dict]:
         # every dedicated family is visited at least twice per run, whatever the seed; the rest is drawn at random
         closure_variant = 0
-        forced = [0.04, 0.11, 0.16, 0.16, 0.21, 0.245, 0.28, 0.28, 0.32, 0.35, 0.35, 0.35, 0.38, 0.41, 0.45, 0.48, 0.7, 0.7, 0.7] * 2
+        forced = [0.04, 0.11, 0.16, 0.16, 0.21, 0.245, 0.28, 0.28, 0.32, 0.35, 0.35, 0.35, 0.38, 0.41, 0.45, 0.48, 0.51, 0.7, 0.7, 0.7] * 2
         while True:
             r = forced.pop() if forced else rng.random()
             if r < 0.08:
@@ -297,6 +297,21 @@ class C09(Prop):
                 yield {"kind": "runs2", "programs": progs, "values": [[q, v] for q, v in zip(params, vals)],
                        "backend": rng.choice(["mem", "lru2", "disk"]), "runner": rng.choice(["sync", "async"])}
                 continue
+            if 0.50 <= r < 0.52:
+                # a cacheable multi-target gate whose routing function answers with ONE list object that it keeps and rewrites on every call:
+                # the entry stored for the first argument must still route as it did when that argument comes back
+                nodes = [{"name": "start", "kind": "fn", "params": [["x", None]], "dataOuts": ["v"], "body": {"b": "sum", "k": 0}},
+                         {"name": "fan", "kind": "route", "params": [["v", None]], "targets": ["t1", "t2", "__END__"], "multiTarget": True, "fallback": None,
+                          "defaultOpen": rng.random() < 0.5, "body": {"b": "tableKept", "rows": [[0, ["t1"]], [1, ["t2"]], [2, ["t1", "t2"]], [3, []]], "dflt": []}, "cache": True},
+                         {"name": "t1", "kind": "fn", "params": [["v", None]], "dataOuts": ["r1"], "body": {"b": "tag", "t": "t1"}},
+                         {"name": "t2", "kind": "fn", "params": [["v", None]], "dataOuts": ["r2"], "body": {"b": "tag", "t": "t2"}}]
+                rng.shuffle(nodes)
+                a, b2 = rng.sample([0, 1, 2, 3], 2)
+                rn = rng.choice(["sync", "async"])
+                yield {"kind": "runs", "program": [{"name": "g0", "nodes": nodes, "bound": []}],
+                       "runs": [{"values": [["x", v]], "runner": rn} for v in (a, b2, a, b2)[: rng.randint(3, 4)]], "backend": rng.choice(["mem", "mem", "lru4"]),
+                       "buildOnce": True}
+                continue
             if r < 0.65:
                 g = rng.random()
                 if g < 0.5:
@@ -379,13 +394,20 @@ class C09(Prop):
         cache = RecordingCache(inner)
         try:
             runs = []
+            shared_env, shared_graphs = None, None
+            if case.get("buildOnce"):
+                # ONE set of graph / node / function objects serves every cached run (as a long-lived application holds them)
+                shared_env = Env()
+                shared_graphs = build.build_program(case["program"], shared_env, async_bodies=False)
             for r in case["runs"]:
                 ref = impl.run_case(case["program"], None, r["values"], {"maxIter": 60}, r["runner"], record_events=True, async_bodies=False)
-                env_g = Env()
-                got = impl.run_case(case["program"], None, r["values"], {"maxIter": 60}, r["runner"], cache=cache, record_events=True, async_bodies=False, env=env_g)
+                env_g = shared_env or Env()
+                n0 = len(env_g.log)
+                got = impl.run_case(case["program"], None, r["values"], {"maxIter": 60}, r["runner"], cache=cache, record_events=True, async_bodies=False, env=env_g,
+                                    graphs=shared_graphs)
                 # digest of the pickled argument objects of every call, exactly what the cache key is computed from
                 pk = []
-                for (fid, kw), (_, ckw) in zip(env_g.log, got["calls"]):
+                for (fid, kw), (_, ckw) in zip(env_g.log[n0:], got["calls"]):
                     try:
                         dg = hashlib.sha256(pickle.dumps(sorted(kw.items()))).hexdigest()[:12]
                     except Exception:  # noqa: BLE001
